@@ -19,9 +19,14 @@ the translator recognises:
   `row[i]`                                                          `getN row i`
   `set([...])`, `k in st`, `st.add(k)`                              the list of keys, `setHas st k`, `setAdd st k`
   `d = dict()`, `d[k] = v`, `d.get(k, None)`                        `[]`, `dictSet d k v`, `dictGet d k` (last write wins)
-  `self.faces.append(f)`                                            `facesAppend s f`
-  `self.edges.append(e)`                                            `edgesAppend s e`  (`DataContainer.append`: the row is
-                                                                     appended and every attribute is expanded by one slot)
+  `X.append(v)` on a `DataContainer`                                the pair (rows, attributes) returned by the TRANSLATED
+                                                                     `DataContainer.append` (`dataAppend`); `facesAppend` /
+                                                                     `edgesAppend` are its hand-written normal forms
+  `a._expand(k)`                                                    `expandAttr k a`
+  `h = C.get_attribute(n)`, `isinstance(h, ArrayAttribute)`,        a handle is the name `n` into the attribute list of `C`:
+  `h._default_value`, `i in h`, `h[i]`, `h[i] = v`                  `attrIsDense`, `attrDflt`, `attrHas`, `attrRead`, `econtAttrSet`
+  `DataContainer(id="edges")`, `C.create_attribute(n, .., dense=d,  `([], [])`, `econtCreate C n d v`
+     default_value=v)`
   `C.append(x, y)` on a corner container                            the pair of lists returned by the TRANSLATED
                                                                      `CornerDataContainer.append` (`cornerAppend`)
   `self.edges.has_attribute(n)`                                     `hasAttr s.eattrs n`
@@ -74,6 +79,37 @@ def attrSetOne (name : String) (k : Nat) (v : Int) (a : Attr) : Attr :=
 /-- `h[k] = v` where `h` is the attribute called `name` of the edge container -/
 def attrSet (s : Raw) (name : String) (k : Nat) (v : Int) : Raw :=
   { s with eattrs := s.eattrs.map (attrSetOne name k v) }
+
+/-! ### the edge container being rebuilt by `_prepare_edges`, and reads through attribute handles -/
+
+/-- a `DataContainer` of edges: its rows and its attributes -/
+abbrev ECont := List (Int × Int) × List Attr
+
+def edgeGet (l : List (Int × Int)) (i : Nat) : Int × Int := l.getD i (0, 0)
+
+/-- `container.get_attribute(name)`: a dict lookup, names are unique -/
+def findAttr (as : List Attr) (n : String) : Option Attr := as.find? (fun a => a.name == n)
+
+/-- `isinstance(h, ArrayAttribute)` -/
+def attrIsDense (as : List Attr) (n : String) : Bool :=
+  match findAttr as n with
+  | some a => (match a.st with | .dense _ => true | .sparse _ => false)
+  | none => false
+
+/-- `h._default_value` -/
+def attrDflt (as : List Attr) (n : String) : Int := match findAttr as n with | some a => a.dflt | none => 0
+/-- `i in h` -/
+def attrHas (as : List Attr) (n : String) (k : Nat) : Bool := match findAttr as n with | some a => a.hasKey k | none => false
+/-- `h[i]` -/
+def attrRead (as : List Attr) (n : String) (k : Nat) : Int := match findAttr as n with | some a => a.read k | none => 0
+
+/-- `c.create_attribute(name, type, elemsize, dense=d, default_value=v)` on a container that has no attribute of that name:
+a dense attribute is allocated with one default slot per element present -/
+def econtCreate (c : ECont) (n : String) (dense : Bool) (dflt : Int) : ECont :=
+  (c.1, c.2 ++ [{ name := n, dflt := dflt, st := if dense then .dense (List.replicate c.1.length dflt) else .sparse [] }])
+
+/-- `h[k] = v` where `h` is the attribute called `n` of the container `c` -/
+def econtAttrSet (c : ECont) (n : String) (k : Nat) (v : Int) : ECont := (c.1, c.2.map (attrSetOne n k v))
 
 def enumFrom {α : Type} : Nat → List α → List (Nat × α)
   | _, [] => []
